@@ -368,7 +368,7 @@ class ModelBase:
             m = el.mono.wrap('sum') if el.mono is not None else None
             return el.only('ty', 'geo', 'mono').w(deps=d, mono=m, const=None)
         if name == 'abs':
-            return a0.w(const=None) if a0 is not None else TOP
+            return a0.w(const=None, bin=None, cmp=None, abs_of=a0) if a0 is not None else TOP
         if name == 'sorted':
             el = self.iter_item(interp, st, a0, None, None)
             return AV(ty='list', elem=el, deps=d, fresh=True, elts=None)
@@ -604,6 +604,26 @@ class ModelBase:
                 else:
                     st.env[test.id] = v.w(falsy=True)
             return
+        # `if traj.coords_are_displacement:` - the storage mode flag of a trajectory object
+        if isinstance(test, ast.Attribute):
+            tv = interp.last.get(id(test))
+            if tv is not None and tv.modeflag_of is not None and tv.modeflag_of in st.heap:
+                h = st.heap[tv.modeflag_of]
+                h['#mode'] = const('disp' if branch else 'pos')
+                c = h.get('coords')
+                if c is not None and c.geo == ('RAW',):
+                    h['coords'] = c.w(geo=('FDIFF', 'MI') if branch else ('FRAC', 'N'))
+                elif c is not None and c.geo is None and c.geo_conflict:
+                    # storage that is positions on some paths and displacements on others: the flag tells which
+                    want = 'FDIFF' if branch else 'FRAC'
+                    pick = [g for g in c.geo_conflict if g[0] == want]
+                    if len(pick) >= 1 and all(g[0] in ('FDIFF', 'FRAC', 'RAW') for g in c.geo_conflict):
+                        g = pick[0]
+                        for other in pick[1:]:
+                            from .interp import geo_join
+                            g = geo_join(g, other) or g
+                        h['coords'] = c.w(geo=g, geo_conflict=None, axes=c.axes if c.axes is not None else ('frame', 'atom', 'xyz'))
+                return
         # `if len(x):` / `if x.size:`  ==  non-emptiness
         tgt = None
         if isinstance(test, ast.Call) and isinstance(test.func, ast.Name) and test.func.id == 'len' and test.args and isinstance(test.args[0], ast.Name):
